@@ -74,6 +74,14 @@ theorem adj_support (e : Ex ℝ) (wm : Bool) :
   | quad d a iha => intro ρ y k i hk; simp only [lin]; exact iha _ _ _ _ hk
   | gauss data icov a iha => intro ρ y k i hk; simp only [lin]; exact iha _ _ _ _ hk
   | const en d v => intro ρ y k i hk; rfl
+  | bil m na nb T a b iha ihb =>
+    intro ρ y k i hk
+    simp only [lin]
+    rw [iha _ _ _ _ (fun h => hk (mem_keys_union_left h)), ihb _ _ _ _ (fun h => hk (mem_keys_union_right h))]; ring
+  | varcov n a b iha ihb =>
+    intro ρ y k i hk
+    simp only [lin]
+    rw [iha _ _ _ _ (fun h => hk (mem_keys_union_left h)), ihb _ _ _ _ (fun h => hk (mem_keys_union_right h))]; ring
 
 theorem not_mem_keys_of_allConst {ck : List String} {d : Dom} (h : allConst ck d = true) {k : String}
     (hk : ck.contains k = false) : k ∉ keys d := by
@@ -167,6 +175,14 @@ theorem pe_adj (ck : List String) (cs : MVal ℝ) (e : Ex ℝ) :
     exact coll _ _ (fun _ _ ρ wm y k i hk => by
       simp only [lin, C03.lin_val, pe_sound, pe_target, iha _ _ _ _ _ hk]) ρ wm y k i hk
   | const en d v => intro ρ wm y k i hk; rfl
+  | bil m na nb T a b iha ihb =>
+    intro ρ wm y k i hk; simp only [pe]
+    exact coll _ _ (fun _ _ ρ wm y k i hk => by
+      simp only [lin, C03.lin_val, pe_sound, iha _ _ _ _ _ hk, ihb _ _ _ _ _ hk]) ρ wm y k i hk
+  | varcov n a b iha ihb =>
+    intro ρ wm y k i hk; simp only [pe]
+    exact coll _ _ (fun _ _ ρ wm y k i hk => by
+      simp only [lin, C03.lin_val, pe_sound, iha _ _ _ _ _ hk, ihb _ _ _ _ _ hk]) ρ wm y k i hk
 
 /-! ### metric -/
 
@@ -211,6 +227,17 @@ theorem gauss_metric_some {data icov : List ℝ} {a : Ex ℝ} {ρ : MVal ℝ} {w
   · exact (Option.some.inj h).symm
   · cases h
 
+theorem varcov_metric_some {n : Nat} {a b : Ex ℝ} {ρ : MVal ℝ} {wm : Bool} {M : MVal ℝ → MVal ℝ}
+    (h : (lin (.varcov n a b) ρ wm).metric = some M) :
+    M = fun h k i' =>
+      (lin a ρ wm).adj (single (fun j => if j < n then (lin b ρ wm).val "" j * (lin a ρ wm).jac h "" j else 0)) k i'
+      + (lin b ρ wm).adj (single (fun j => if j < n then
+          ((0.5 : ℝ) / ((lin b ρ wm).val "" j * (lin b ρ wm).val "" j)) * (lin b ρ wm).jac h "" j else 0)) k i' := by
+  simp only [lin] at h
+  split at h
+  · exact (Option.some.inj h).symm
+  · cases h
+
 theorem const_metric_some {en : Bool} {d : Dom} {v : MVal ℝ} {ρ : MVal ℝ} {wm : Bool} {M : MVal ℝ → MVal ℝ}
     (h : (lin (.const en d v) ρ wm).metric = some M) : M = fun _ _ _ => 0 := by
   simp only [lin] at h
@@ -244,6 +271,11 @@ theorem metric_congr (e : Ex ℝ) (wm : Bool) :
   | const en d v =>
     intro ρ M hM h1 h2 hh
     rw [const_metric_some hM]
+  | varcov n a b iha ihb =>
+    intro ρ M hM h1 h2 hh
+    rw [varcov_metric_some hM]
+    simp only [jac_congr a wm ρ h1 h2 (agree_union_left hh), jac_congr b wm ρ h1 h2 (agree_union_right hh)]
+  | bil m na nb T a b _ _ => intro ρ M hM; simp [lin] at hM
   | var k n => intro ρ M hM; simp [lin] at hM
   | sub a b _ _ => intro ρ M hM; simp [lin] at hM
   | mul a b _ _ => intro ρ M hM; simp [lin] at hM
@@ -284,6 +316,13 @@ theorem metric_support (e : Ex ℝ) (wm : Bool) :
   | const en d v =>
     intro ρ M hM h k i hk
     rw [const_metric_some hM]
+  | varcov n a b iha ihb =>
+    intro ρ M hM h k i hk
+    rw [varcov_metric_some hM]
+    simp only [adj_support a wm _ _ _ _ (fun hh => hk (mem_keys_union_left hh)),
+      adj_support b wm _ _ _ _ (fun hh => hk (mem_keys_union_right hh))]
+    ring
+  | bil m na nb T a b _ _ => intro ρ M hM; simp [lin] at hM
   | var k n => intro ρ M hM; simp [lin] at hM
   | sub a b _ _ => intro ρ M hM; simp [lin] at hM
   | mul a b _ _ => intro ρ M hM; simp [lin] at hM
@@ -358,6 +397,12 @@ theorem pe_metric_partial (ck : List String) (cs : MVal ℝ) (e : Ex ℝ) :
     intro ρ wm M' M hM' hM h k i hk
     simp only [pe] at hM'
     rw [const_metric_some hM', const_metric_some hM]
+  | varcov n a b iha ihb =>
+    intro ρ wm M' M hM' hM h k i hk; simp only [pe] at hM'
+    refine coll _ _ (fun _ _ ρ wm M' M hM' hM h k i hk => ?_) ρ wm M' M hM' hM h k i hk
+    rw [varcov_metric_some hM', varcov_metric_some hM]
+    simp only [pe_adj ck cs a ρ wm _ k i hk, pe_adj ck cs b ρ wm _ k i hk, pe_jac, C03.lin_val, pe_sound]
+  | bil m na nb T a b _ _ => intro ρ wm M' M hM' hM; simp [lin] at hM
   | var k0 n =>
     intro ρ wm M' M hM' hM; simp [lin] at hM
   | sub a b _ _ => intro ρ wm M' M hM' hM; simp [lin] at hM
